@@ -286,24 +286,29 @@ def widget(alg, **attrs):
     return Obj("GraphWidget", a)
 
 
-@rule("C20.key2idx", props=["C20"], min_instances=1, mutants=[
+@rule("C20.key2idx", props=["C20"], min_instances=3, mutants=[
+    ("key2idx orders keys by (grade, binary value)", ("graph", "return {k: i for i, k in enumerate(self.algebra.canon2bin.values())}", "return {k: i for i, k in enumerate(sorted(self.algebra.canon2bin.values(), key=lambda k: (bin(k).count('1'), k)))}")),
     ("key2idx by binary value", ("graph", "return {k: i for i, k in enumerate(self.algebra.canon2bin.values())}", "return {k: k for i, k in enumerate(self.algebra.canon2bin.values())}")),
 ])
 def key2idx(ctx):
     """key2idx[k] is the position of k in the canonical basis - the order a key-less payload is read in."""
     q = "graph.GraphWidget.get_key2idx"
     fn = ctx.func(q)
-    alg = rep_algebra(3)
-    it = make_interp(ctx.repo)
-    try:
-        out = it.run(q, [widget(alg)])
-    except NoValue as exc:
-        raise Unknown(q, str(exc), fn)
-    want = {k: i for i, k in enumerate(canonical_keys(alg))}
-    if out == ("return", want):
-        ctx.ok(q, fn, key2idx=want)
-    else:
-        ctx.violation(q, f"key2idx is {out[1]!r}, expected canonical positions {want}", fn)
+    from .c02 import BASIS_2DPGA
+    for label, alg in (("default d=3", rep_algebra(3)), ("default d=4", rep_algebra(4)), ("custom basis 2DPGA", rep_algebra(3, basis=BASIS_2DPGA))):
+        c = f"{q}#{label}"
+        it = make_interp(ctx.repo)
+        try:
+            out = it.run(q, [widget(alg)])
+        except NoValue as exc:
+            raise Unknown(c, str(exc), fn)
+        want = {k: i for i, k in enumerate(canonical_keys(alg))}
+        if out == ("return", want):
+            ctx.ok(c, fn)
+        else:
+            bad = sorted(k for k in want if not isinstance(out[1], dict) or out[1].get(k) != want[k])[:4]
+            ctx.violation(c, f"key2idx ({label}) differs from the canonical positions for keys {bad}: a payload sent with keys "
+                             f"puts those coefficients on other blades than a key-less payload read in canonical order", fn)
 
 
 @rule("C20.cayley", props=["C20"], min_instances=1, mutants=[
@@ -473,6 +478,7 @@ def writeback(ctx):
 # --------------------------------------------------------------------------- subject plumbing
 @rule("C20.subjects", props=["C20"], min_instances=6, mutants=[
     ("subjects encode the raw subjects of a single callable without calling it", ("graph", "            pre_subjects = s()\n            if not isinstance(pre_subjects, TREE_TYPES):", "            pre_subjects = s\n            if not isinstance(pre_subjects, TREE_TYPES):")),
+    ("subjects encode the cached pre_subjects", ("graph", "        return walker(encode(self._get_pre_subjects(), root=True))", "        return walker(encode(self.pre_subjects, root=True))")),
     ("message handler does not refresh", ("graph", "            self.subjects = self.get_subjects()\n\n    def _get_pre_subjects", "            self.get_subjects()\n\n    def _get_pre_subjects")),
     ("graph() drops the options", ("algebra", "            raw_subjects=subjects,\n            options=options,", "            raw_subjects=subjects,\n            options={},")),
     ("camera option passed through unencoded", ("graph", "            options['camera'] = list(encode(options['camera']))[0]", "            options['camera'] = options['camera']")),
@@ -512,18 +518,28 @@ def subjects(ctx):
             ctx.ok(c, fn)
         else:
             ctx.violation(c, f"prepared subjects for {label} are {norm(got) if got is not None else out!r}", fn)
-    # get_subjects = walker(encode(pre_subjects, root=True))
+    # a single root callable is re-run on every evaluation (its result is not cached in pre_subjects)
     q = "graph.GraphWidget.get_subjects"
     fn = ctx.func(q)
+    state = {"n": 0}
+
+    def root():
+        state["n"] += 1
+        return [a] if state["n"] == 1 else [a, 255, b]
+    rootf = Obj("function", {"fmt": "<root>"}, call=root)
+    w = widget(alg, raw_subjects=[rootf])
     try:
-        out = make_interp(repo).run(q, [widget(alg, raw_subjects=[lam])])
+        it0 = make_interp(repo)
+        w.attrs["pre_subjects"] = it0.run("graph.GraphWidget.get_pre_subjects", [w])[1]      # trait default at construction
+        out = make_interp(repo).run(q, [w])
     except NoValue as exc:
-        raise Unknown(q, str(exc), fn)
+        raise Unknown(q + "#re-evaluation", str(exc), fn)
     if out[0] == "return" and norm(out[1]) == norm([pa, 255, pb]):
-        ctx.ok(q, fn)
+        ctx.ok(q + "#re-evaluation", fn)
     else:
-        ctx.violation(q, f"subjects of a single callable returning [A, 255, B] are {norm(out[1]) if out[0] == 'return' else out!r}, "
-                         f"expected {norm([pa, 255, pb])}", fn)
+        ctx.violation(q + "#re-evaluation", f"after the root function changed what it returns, get_subjects() gives "
+                      f"{norm(out[1]) if out[0] == 'return' else out!r} - the stale first evaluation - instead of re-running "
+                      f"the function ({norm([pa, 255, pb])}): dependent subjects are not re-evaluated", fn)
     # update message re-evaluates
     q = "graph.GraphWidget._handle_custom_msg"
     fn = ctx.func(q)
